@@ -140,3 +140,36 @@ def po_flag(S):
     S.check("is_open==(bar-in-hourly-data)", m.is_open == (S.shape["ts"] == "open"))
     S.check("_is_open()==(bar-on-the-hour)", m._is_open() == (S.shape["ts"] == "open"))
     S.check("status-is-a-copy-of-the-hour's-rows", len(m._market_status.data.index) == len(w.data.index))
+
+
+@native
+def same_rows_next_bar(w):
+    return w.data.copy()
+
+
+@proof("C16", "update/two-bars:a-position-bought-after-an-earlier-update-settles-at-its-own-expiry", strength="S",
+       shapes={"quick": [{"first": "CALL"}], "thorough": [{"first": "CALL"}, {"first": "PUT"}]}, config={"max_seconds": 600}, covers=("bought",))
+def po_two_bars(S):
+    """Settlement is stated per bar ('at the first open bar at or after expiry'): it may not depend on what an earlier update() saw.
+       Bar 06:00: a position expiring at 08:00 is held, update() finds nothing due; then an option expiring at 07:00 is bought through
+       the real buy(); bar 07:00: update() must settle exactly that one."""
+    from demeter.deribit import DeribitMarketStatus
+    far = H1 + pd.Timedelta(hours=1)
+    k0 = S.shape["first"]
+    w = deribit_world(S, (("I0", k0, "open"), ("I1", "PUT" if k0 == "CALL" else "CALL", "open")), 1, 1, ("I0",), H0, {"I0": far, "I1": H1})
+    m = w.market
+    m.update()
+    S.check("bar-0:nothing-is-due,nothing-settled", "I0" in m.positions and len(w.actions) == 0)
+    try:
+        m.buy("I1", S.dec("amount", 0, 1000))
+    except REJECT:
+        pass
+    held1 = "I1" in m.positions
+    n0 = len(w.actions)
+    m.set_market_status(DeribitMarketStatus(H1, same_rows_next_bar(w)), m._price_status)
+    m.update()
+    S.check("bar-1:the-later-expiry-is-untouched", "I0" in m.positions and len(of_type(w.actions, ExpiredAction, "I0")) == 0)
+    if held1:
+        S.cover("bought")
+        S.check("bar-1:the-position-bought-in-bar-0-is-settled-at-its-expiry", "I1" not in m.positions)
+        S.check("bar-1:exactly-one-Expired-record-for-it", len(of_type(w.actions, ExpiredAction, "I1")) == 1)
